@@ -134,6 +134,21 @@ func genC15Plan(r *zsim.Rng) *sysPlan {
 			p.Lines.Extra = append(p.Lines.Extra, b.String())
 		}
 		p.Gens[0] = p.Lines
+		// the input a reload brings: records that take several rows where short ones were (same numbers)
+		for k := r.Range(1, 4); k > 0; k-- {
+			var b strings.Builder
+			for w := r.Range(10, 120); w > 0; w-- {
+				for l := r.Range(1, 7); l > 0; l-- {
+					b.WriteByte(lineAlphabet[r.Intn(len(lineAlphabet))])
+				}
+				b.WriteByte(' ')
+			}
+			fmt.Fprintf(&b, "#z%d", k)
+			p.Gens[1].Extra = append(p.Gens[1].Extra, b.String())
+		}
+		if r.Bool() {
+			p.Gens[1].N = 0 // the tall records first
+		}
 	}
 	if r.Chance(1, 3) {
 		p.Args = append(p.Args, "--header", c15Header)
@@ -427,6 +442,13 @@ func c15Settle(r *sysRun, busy bool) {
 				wide = true // double-width glyphs take two screen cells each: bounds only (as for the unwrapped rows)
 			}
 		}
+		pointerRows := 0
+		defer func() {
+			// whatever rows the results take, the current one is in view: its pointer is on the screen
+			if !wide && len(cands) > 0 && pointerRows == 0 && len(c.viol) == 0 {
+				c.violate("c15.pointer", "--wrap: %d results in view but no row carries the pointer (%s)%s", len(cands), where, dump())
+			}
+		}()
 		for _, row := range listRows {
 			if row < 0 || row >= rows {
 				continue
@@ -434,6 +456,9 @@ func c15Settle(r *sysRun, busy bool) {
 			rs := []rune(scr[row])
 			if wide {
 				break
+			}
+			if len(rs) > 0 && string(rs[0]) == pointer {
+				pointerRows++
 			}
 			if len(rs) > cols {
 				c.violate("c15.width", "row %d is %d columns wide on a %d column screen", row, len(rs), cols)
@@ -502,8 +527,12 @@ func c15Settle(r *sysRun, busy bool) {
 		}
 		wantTrim := strings.TrimRight(want, " ")
 		if strings.Contains(want, "\t") {
-			// tabs: bounds only (the terminal counts writes past the right margin)
+			// tabs: bounds only (the terminal counts writes past the right margin; the text keeps to its columns)
 			c.count("probe.tab_row", 1)
+			if runeWidthOf(text) > textWidth+1 {
+				c.violate("c15.width", "row %d: the text %q of a line with tabs is %d columns wide, the window allows %d (%s)%s", row, text, runeWidthOf(text), textWidth, where, dump())
+				return
+			}
 			continue
 		}
 		if dw := util.StringWidth(want); dw != runeWidthOf(want) {
